@@ -1,35 +1,52 @@
 ------------------------------- MODULE Streams -------------------------------
 (***************************************************************************)
 (* C19 (first half): libherokubuildpack::command - a child process writes  *)
-(* to two bounded pipes; one copier thread per pipe moves the data to the  *)
-(* caller's writer (tee'd into the returned Output); the caller joins both *)
-(* copiers and then waits for the child.                                   *)
+(* to two bounded pipes; one copier thread per pipe moves the data, chunk  *)
+(* by chunk, to the caller's writer (which may accept only part of a chunk *)
+(* per call); the caller joins both copiers and then                       *)
+(*   Api = "spawn"  (spawn_and_write_streams)  returns the running child,  *)
+(*   Api = "output" (output_and_write_streams) waits for the child's exit. *)
+(* A child may close both streams and keep running (linger).               *)
 (*                                                                         *)
-(* Sequential = TRUE is the design that copies stdout to the end before    *)
-(* touching stderr.  It is kept as a negative control: it must deadlock.   *)
+(* Negative controls (each must violate something):                        *)
+(*   Sequential = TRUE  copies stdout to the end before touching stderr    *)
+(*   WriteAll   = FALSE one write call per chunk, what was not accepted is *)
+(*                      dropped                                            *)
+(*   SpawnWaits = TRUE  the spawn API also waits for the child's exit      *)
 (***************************************************************************)
 EXTENDS TLC, Json, Sequences, FiniteSets, Naturals
 
 CONSTANTS Cap,         \* pipe capacity in units
           Scripts,     \* the child programs explored: sequences of [s |-> "out"|"err", n |-> units]
           Sequential,  \* TRUE: negative control
-          EmitTR
+          EmitTR,
+          Api,         \* "output" | "spawn"
+          WCaps,       \* how many units the caller's writer may accept per write call
+          WriteAll,    \* FALSE: negative control
+          SpawnWaits   \* TRUE: negative control
 
 VARIABLES script,   \* what the child still has to write (head = current write)
           pipe,     \* [out, err] -> sequence of unit ids in the pipe
-          closed,   \* the child has exited: both pipes closed on the write side
+          closed,   \* the child has closed both pipes on the write side
           got,      \* [out, err] -> sequence of unit ids delivered to the writer
           eof,      \* [out, err] -> the copier saw EOF and finished
           sent,     \* [out, err] -> sequence of unit ids the child wrote (history)
           uid,      \* next unit id
-          prog      \* the script this behaviour started with
-vars == <<script, pipe, closed, got, eof, sent, uid, prog>>
+          prog,     \* the script this behaviour started with
+          buf,      \* [out, err] -> the chunk a copier has read and its writer has not yet accepted
+          wcap,     \* units the writer accepts per call
+          linger,   \* the child keeps running after closing its streams (it may never exit)
+          exited,   \* the child process has exited
+          returned  \* the call has returned to the caller
+vars == <<script, pipe, closed, got, eof, sent, uid, prog, buf, wcap, linger, exited, returned>>
 
 Streams == {"out", "err"}
 
 Init == /\ script \in Scripts /\ prog = script
         /\ pipe = [s \in Streams |-> <<>>] /\ got = [s \in Streams |-> <<>>] /\ sent = [s \in Streams |-> <<>>]
+        /\ buf = [s \in Streams |-> <<>>]
         /\ eof = [s \in Streams |-> FALSE] /\ closed = FALSE /\ uid = 1
+        /\ wcap \in WCaps /\ linger \in BOOLEAN /\ exited = FALSE /\ returned = FALSE
 
 \* the child writes one unit of its current write; it blocks while the pipe is full
 ChildWrite ==
@@ -40,37 +57,62 @@ ChildWrite ==
      /\ sent' = [sent EXCEPT ![s] = Append(@, uid)]
      /\ uid' = uid + 1
      /\ script' = <<[Head(script) EXCEPT !.n = @ - 1]>> \o Tail(script)
-  /\ UNCHANGED <<closed, got, eof, prog>>
+  /\ UNCHANGED <<closed, got, eof, prog, buf, wcap, linger, exited, returned>>
 ChildNext ==
   /\ script # <<>> /\ Head(script).n = 0
-  /\ script' = Tail(script) /\ UNCHANGED <<pipe, closed, got, eof, sent, uid, prog>>
-ChildExit ==
+  /\ script' = Tail(script) /\ UNCHANGED <<pipe, closed, got, eof, sent, uid, prog, buf, wcap, linger, exited, returned>>
+ChildClose ==
   /\ script = <<>> /\ ~closed
-  /\ closed' = TRUE /\ UNCHANGED <<script, pipe, got, eof, sent, uid, prog>>
+  /\ closed' = TRUE /\ UNCHANGED <<script, pipe, got, eof, sent, uid, prog, buf, wcap, linger, exited, returned>>
+ChildExit ==
+  /\ closed /\ ~exited
+  /\ exited' = TRUE /\ UNCHANGED <<script, pipe, closed, got, eof, sent, uid, prog, buf, wcap, linger, returned>>
 
-\* a copier thread: read what is there, deliver it; EOF once the pipe is empty and closed
-Copy(s) ==
-  /\ ~eof[s]
+\* a copier thread: read a chunk, hand it to the writer until all of it is accepted; EOF once the
+\* pipe is empty and closed
+CopyRead(s) ==
+  /\ ~eof[s] /\ buf[s] = <<>> /\ pipe[s] # <<>>
   /\ Sequential => (s = "out" \/ eof["out"])        \* negative control: stderr only after stdout
-  /\ \/ /\ pipe[s] # <<>>
-        /\ got' = [got EXCEPT ![s] = Append(@, Head(pipe[s]))]
-        /\ pipe' = [pipe EXCEPT ![s] = Tail(@)]
-        /\ UNCHANGED <<eof>>
-     \/ /\ pipe[s] = <<>> /\ closed
-        /\ eof' = [eof EXCEPT ![s] = TRUE]
-        /\ UNCHANGED <<got, pipe>>
-  /\ UNCHANGED <<script, closed, sent, uid, prog>>
+  /\ \E k \in 1..Len(pipe[s]) :
+       /\ buf' = [buf EXCEPT ![s] = SubSeq(pipe[s], 1, k)]
+       /\ pipe' = [pipe EXCEPT ![s] = SubSeq(@, k + 1, Len(@))]
+  /\ UNCHANGED <<script, closed, got, eof, sent, uid, prog, wcap, linger, exited, returned>>
+CopyWrite(s) ==
+  /\ buf[s] # <<>>
+  /\ LET n == IF Len(buf[s]) < wcap THEN Len(buf[s]) ELSE wcap IN
+     /\ got' = [got EXCEPT ![s] = @ \o SubSeq(buf[s], 1, n)]
+     /\ buf' = [buf EXCEPT ![s] = IF WriteAll THEN SubSeq(@, n + 1, Len(@)) ELSE <<>>]
+  /\ UNCHANGED <<script, pipe, closed, eof, sent, uid, prog, wcap, linger, exited, returned>>
+CopyEof(s) ==
+  /\ ~eof[s] /\ buf[s] = <<>> /\ pipe[s] = <<>> /\ closed
+  /\ Sequential => (s = "out" \/ eof["out"])
+  /\ eof' = [eof EXCEPT ![s] = TRUE]
+  /\ UNCHANGED <<script, pipe, closed, got, sent, uid, prog, buf, wcap, linger, exited, returned>>
+Copy(s) == CopyRead(s) \/ CopyWrite(s) \/ CopyEof(s)
 
-\* the caller: joins both copiers, then wait()s for the child
-Done == eof["out"] /\ eof["err"] /\ closed
+\* the caller: joins both copiers, then (output API) wait()s for the child
+Joined == eof["out"] /\ eof["err"]
+Return ==
+  /\ ~returned /\ Joined
+  /\ (Api = "output" \/ SpawnWaits) => exited
+  /\ returned' = TRUE
+  /\ UNCHANGED <<script, pipe, closed, got, eof, sent, uid, prog, buf, wcap, linger, exited>>
+
+Done == returned
 Finished == /\ Done /\ UNCHANGED vars
-            /\ (EmitTR => PrintT(<<"ST", ToJson([script |-> prog])>>))
+            /\ (EmitTR => PrintT(<<"ST", ToJson([script |-> prog, linger |-> linger, wcap |-> wcap])>>))
 
-Next == ChildWrite \/ ChildNext \/ ChildExit \/ Copy("out") \/ Copy("err") \/ Finished
-Spec == Init /\ [][Next]_vars /\ WF_vars(Next)
+Next == ChildWrite \/ ChildNext \/ ChildClose \/ ChildExit \/ Copy("out") \/ Copy("err") \/ Return \/ Finished
+\* every thread / process makes progress when it can; a lingering child need never exit
+Spec == /\ Init /\ [][Next]_vars
+        /\ WF_vars(ChildWrite \/ ChildNext \/ ChildClose)
+        /\ WF_vars(ChildExit /\ ~linger)
+        /\ WF_vars(Copy("out")) /\ WF_vars(Copy("err")) /\ WF_vars(Return)
 
 \* every byte, in order per stream, and nothing else
 Delivered == Done => (got = sent)
 InOrder == \A s \in Streams : \E k \in 0..Len(sent[s]) : got[s] = SubSeq(sent[s], 1, k)
-Terminates == <>Done
+\* "returns once both streams close": the spawn API does not wait for a child that lingers
+Returns == (Joined /\ (Api = "output" => exited)) ~> returned
+Terminates == <>[](returned \/ (Api = "output" /\ linger /\ ~exited))
 =============================================================================
